@@ -395,6 +395,10 @@ class Profile:
         # Register service as an attribute
         self.register_attribute(service)
 
+        # Register its include definitions
+        for inc_service in service.included_services():
+            self.register_attribute(inc_service)
+
         # Register all its characteristics
         for charac in service.characteristics():
             # Register Characteristic and its CharacteristicValue
@@ -447,6 +451,11 @@ class Profile:
 
             # Remove service object from attribute db
             del self.__attr_db[service_obj.handle]
+
+            # Remove its include definitions from attribute db
+            for inc_service in service_obj.included_services():
+                if inc_service.handle in self.__attr_db:
+                    del self.__attr_db[inc_service.handle]
 
             # Remove service from our list of services (if required)
             if not handles_only:
